@@ -7,6 +7,14 @@ needle bytes (1, 2, 3) and the unroll factor of the aligned loop (4, 2, 2; taken
 `Generated.Consts`).  The model is therefore one set of functions parametric in the needle
 bytes `ns` and the unroll factor `u`.  A Rust `while` is a well-founded recursive function
 whose exit branch calls the continuation.
+
+Every pointer `add` / `sub` / `offset` of the source whose result is kept (result pointers
+`cur.add(mask_to_offset(mask))`, `cur.add(k * V::BYTES).add(topos(mask))`, the loop updates
+`cur = cur.add(..)` / `cur.sub(..)`, `ptr.offset(±1)`) goes through `Mem.padd` / `Mem.psub`, on
+exactly the path where the source evaluates it, so `= .ok ..` includes "no pointer arithmetic
+leaves the allocation".  Where the termination checker needs the pure value the check is done
+for its effect and the loop continues with the pure expression.  (`cur.add(k * V::BYTES)` as the
+argument of a load is checked by the load itself, which is stronger.)
 -/
 import MemchrModel.Model.Vector
 
@@ -35,7 +43,9 @@ def fwdByteLoop (m : Mem) (confirm : UInt8 → Bool) (end_ ptr : Nat) : M (Optio
   if h : ptr < end_ then do
     tick
     let b ← m.read ptr
-    if confirm b then pure (some ptr) else fwdByteLoop m confirm end_ (ptr + 1)
+    if confirm b then pure (some ptr) else do
+      let _ ← m.padd "fwd_byte_by_byte: ptr.offset(1)" ptr 1
+      fwdByteLoop m confirm end_ (ptr + 1)
   else pure none
 termination_by end_ - ptr
 
@@ -47,6 +57,7 @@ def fwdByteByByte (m : Mem) (confirm : UInt8 → Bool) (start end_ : Nat) : M (O
 def revByteLoop (m : Mem) (confirm : UInt8 → Bool) (start ptr : Nat) : M (Option Nat) :=
   if h : ptr > start then do
     tick
+    let _ ← m.psub "rev_byte_by_byte: ptr.offset(-1)" ptr 1
     let b ← m.read (ptr - 1)
     if confirm b then pure (some (ptr - 1)) else revByteLoop m confirm start (ptr - 1)
   else pure none
@@ -61,6 +72,7 @@ def countByteLoop (m : Mem) (confirm : UInt8 → Bool) (end_ ptr count : Nat) : 
   if h : ptr < end_ then do
     tick
     let b ← m.read ptr
+    let _ ← m.padd "count_byte_by_byte: ptr.offset(1)" ptr 1
     countByteLoop m confirm end_ (ptr + 1) (if confirm b then count + 1 else count)
   else pure count
 termination_by end_ - ptr
@@ -85,7 +97,8 @@ variable (V : VecImpl)
 @[inline] def chunkMask (e : Vec × List Vec) : V.Mask :=
   (e.2.map V.movemask).foldl V.mor (V.movemask e.1)
 
-/-- `search_chunk(cur, mask_to_offset)` -/
+/-- `search_chunk(cur, mask_to_offset)`; the result pointer `cur.add(mask_to_offset(mask))` must
+stay inside the allocation. -/
 def searchChunk (ns : Needles) (m : Mem) (cur : Nat) (topos : V.Mask → M Nat) :
     M (Option Nat) := do
   tick
@@ -94,7 +107,8 @@ def searchChunk (ns : Needles) (m : Mem) (cur : Nat) (topos : V.Mask → M Nat) 
   let mask := V.movemask (chunkOr e)
   if V.hasNonZero mask then
     let off ← topos (chunkMask V e)
-    pure (some (cur + off))
+    let p ← m.padd "search_chunk: cur.add(mask_to_offset(mask))" cur off
+    pure (some p)
   else pure none
 
 /-- `V::load_aligned(cur)`, `V::load_aligned(cur.add(1 * V::BYTES))`, ... (`k` loads) -/
@@ -110,22 +124,31 @@ def blockOr : List (Vec × List Vec) → Vec
   | [] => Vec.splat V.bytes 0
   | e :: rest => rest.foldl (fun acc e' => Vec.or acc (chunkOr e')) (chunkOr e)
 
+/-- `Some(cur.add(k * V::BYTES).add(topos(mask)))` of the unrolled loop of `fn` (`find_raw` or
+`rfind_raw`), where `a = cur + k * V::BYTES` is the address of the `k`-th chunk of the block at
+`cur` (an element of `chunkAddrs`): both `add`s must stay inside the allocation.  (For `k = 0` the
+source is just `cur.add(topos(mask))`; the first check is then the vacuous `cur.add(0)`.) -/
+def hitPtr (m : Mem) (fn : String) (cur a : Nat) (topos : V.Mask → M Nat) (mask : V.Mask) :
+    M (Option Nat) := do
+  let _ ← m.padd (fn ++ ": cur.add(k * V::BYTES)") cur (a - cur)
+  let off ← topos mask
+  let p ← m.padd (fn ++ ": cur.add(k * V::BYTES).add(topos(mask))") a off
+  pure (some p)
+
 /-- After `movemask_will_have_non_zero`: masks are inspected in the given order
 (`a, b, c, d` for forward); the last one is only `debug_assert`ed to be non-zero.
-`addrs` are the chunk addresses in the same order. -/
-def blockHit (topos : V.Mask → M Nat) : List (Nat × (Vec × List Vec)) → M (Option Nat)
+`addrs` are the chunk addresses (of the block at `cur`) in the same order. -/
+def blockHit (m : Mem) (fn : String) (cur : Nat) (topos : V.Mask → M Nat) :
+    List (Nat × (Vec × List Vec)) → M (Option Nat)
   | [] => pure none
   | [(a, e)] => do
     let mask := chunkMask V e
     dbgAssert "unrolled loop: last mask must be non-zero" (V.hasNonZero mask)
-    let off ← topos mask
-    pure (some (a + off))
+    hitPtr V m fn cur a topos mask
   | (a, e) :: rest => do
     let mask := chunkMask V e
-    if V.hasNonZero mask then
-      let off ← topos mask
-      pure (some (a + off))
-    else blockHit topos rest
+    if V.hasNonZero mask then hitPtr V m fn cur a topos mask
+    else blockHit m fn cur topos rest
 
 /-- the addresses `cur, cur + BYTES, ...` (`k` of them) -/
 def chunkAddrs (cur : Nat) : Nat → List Nat
@@ -141,7 +164,8 @@ def block (ns : Needles) (u : Nat) (rev : Bool) (m : Mem) (cur : Nat)
   let es := chunks.map (chunkEqs V ns)
   if V.willHaveNonZero (blockOr V es) then
     let tagged := (chunkAddrs V cur u).zip es
-    blockHit V topos (if rev then tagged.reverse else tagged)
+    blockHit V m (if rev then "rfind_raw" else "find_raw") cur topos
+      (if rev then tagged.reverse else tagged)
   else pure none
 
 /-! ### `find_raw` -/
@@ -153,7 +177,9 @@ def fwdLoop1 (ns : Needles) (m : Mem) (end_ lim cur : Nat) : M (Option Nat) :=
     dbgAssert "find_raw: end.distance(cur) >= V::BYTES" (d ≥ V.bytes)
     match ← searchChunk V ns m cur V.firstOffset with
     | some p => pure (some p)
-    | none => fwdLoop1 ns m end_ lim (cur + V.bytes)
+    | none =>
+      let _ ← m.padd "find_raw: cur.add(V::BYTES)" cur V.bytes
+      fwdLoop1 ns m end_ lim (cur + V.bytes)
   else if cur < end_ then do
     let d ← m.distance "find_raw: end.distance(cur) (tail)" end_ cur
     dbgAssert "find_raw: end.distance(cur) < V::BYTES" (d < V.bytes)
@@ -173,7 +199,9 @@ def fwdLoopN (ns : Needles) (u : Nat) (hu : 0 < u) (m : Mem) (end_ limN lim1 cur
     dbgAssert "find_raw: cur % V::BYTES == 0" (cur % V.bytes == 0)
     match ← block V ns u false m cur V.firstOffset with
     | some p => pure (some p)
-    | none => fwdLoopN ns u hu m end_ limN lim1 (cur + u * V.bytes)
+    | none =>
+      let _ ← m.padd "find_raw: cur.add(Self::LOOP_SIZE)" cur (u * V.bytes)
+      fwdLoopN ns u hu m end_ limN lim1 (cur + u * V.bytes)
   else fwdLoop1 V ns m end_ lim1 cur
 termination_by limN + 1 - cur
 decreasing_by
@@ -267,6 +295,7 @@ def countLoop1 (n1 : UInt8) (m : Mem) (end_ lim cur count : Nat) : M Nat :=
     let d ← m.distance "count_raw: end.distance(cur)" end_ cur
     dbgAssert "count_raw: end.distance(cur) >= V::BYTES" (d ≥ V.bytes)
     let chunk ← V.loadU m cur
+    let _ ← m.padd "count_raw: cur.add(V::BYTES)" cur V.bytes
     countLoop1 n1 m end_ lim (cur + V.bytes) (countChunks V n1 [chunk] count)
   else do
     let c ← countByteByByte m (fun b => b == n1) cur end_
@@ -280,6 +309,7 @@ def countLoopN (n1 : UInt8) (u : Nat) (hu : 0 < u) (m : Mem) (end_ limN lim1 cur
     tick
     dbgAssert "count_raw: cur % V::BYTES == 0" (cur % V.bytes == 0)
     let chunks ← loadChunks V m cur u
+    let _ ← m.padd "count_raw: cur.add(Self::LOOP_SIZE)" cur (u * V.bytes)
     countLoopN n1 u hu m end_ limN lim1 (cur + u * V.bytes) (countChunks V n1 chunks count)
   else countLoop1 V n1 m end_ lim1 cur count
 termination_by limN + 1 - cur
